@@ -192,6 +192,10 @@ structure Cfg where
   upInterp : Bool
   inCh : Nat
   heads : List Head
+  /-- tree carries `fixes/C14-middle-block.patch` (decoder input sized for `middle_block=False`) -/
+  fixMid : Bool := false
+  /-- tree carries `fixes/C14-wrapper-output-stride.patch` (wrapper decoders stop at `output_stride`) -/
+  fixWrap : Bool := false
 deriving DecidableEq, Repr
 
 /-- `UNet.from_config`: `(stem_blocks, down_blocks, up_blocks)`. -/
@@ -263,6 +267,11 @@ structure Built where
   dec : List DecBlock
 deriving DecidableEq, Repr
 
+/-- up blocks of the ConvNeXt / Swin wrappers: always 3 on the pinned tree; with
+    `fixes/C14-wrapper-output-stride.patch` the decoder stops at `output_stride`. -/
+def wrapUp (fixWrap : Bool) (sps bos : Nat) : Nat :=
+  if !fixWrap || bos ≤ sps then 3 else if bos ≤ 2 * sps then 2 else 1
+
 def build (c : Cfg) : Res Built :=
   match c.fam with
   | .unet =>
@@ -270,21 +279,24 @@ def build (c : Cfg) : Res Built :=
     let stem := stem.toNat; let down := down.toNat; let up := up.toNat
     let D := stem + down
     let xIn := scale c.filters c.rate D
+    -- decoder input channels (`x_in_shape`): with the middle-block fix and no middle block the
+    -- encoder output keeps the last down block's filters
+    let xDec := if c.fixMid && !c.middle then scale c.filters c.rate ((D : Int) - 1) else xIn
     -- `current_stride` = product of the pooling strides of the pooled conv blocks
     let cur := 2 ^ (D - 1)
-    (decBuild c.filters c.rate D up xIn cur c.bos).bind fun dec =>
+    (decBuild c.filters c.rate D up xDec cur c.bos).bind fun dec =>
       .ok { enc := unetEnc c.inCh c.filters c.rate c.cpb stem down c.middle, xIn := xIn, dec := dec }
   | .convnext =>
     let ch := convnextChannels c.variant
     let c0 := ch.getD 0 0; let c1 := ch.getD 1 0; let c2 := ch.getD 2 0; let c3 := ch.getD 3 0
     let enc := [Op.sconv c.inCh c0 4 c.stem 1, .tap, .sconv c0 c1 2 2 0, .tap, .sconv c1 c2 2 2 0, .tap,
                 .sconv c2 c3 2 2 0]
-    (decBuild c0 c.rate 3 3 c3 (c.stem * 4) c.bos).bind fun dec =>
+    (decBuild c0 c.rate 3 (wrapUp c.fixWrap c.stem c.bos) c3 (c.stem * 4) c.bos).bind fun dec =>
       .ok { enc := enc, xIn := c3, dec := dec }
   | .swint =>
     let e := swintEmbed c.variant
     let enc := [Op.sconv c.inCh e 4 c.stem 1, .tap, .merge, .tap, .merge, .tap, .merge]
-    (decBuild e c.rate 3 3 (e * 8) (c.stem * 4) c.bos).bind fun dec =>
+    (decBuild e c.rate 3 (wrapUp c.fixWrap c.stem c.bos) (e * 8) (c.stem * 4) c.bos).bind fun dec =>
       .ok { enc := enc, xIn := e * 8, dec := dec }
 
 def labels (dec : List DecBlock) : List Nat := dec.map (·.label)
@@ -296,19 +308,23 @@ def minList : List Nat → Nat → Nat
 def findIdx (l : List Nat) (a : Nat) : Res Nat :=
   if a ∈ l then .ok (l.idxOf a) else .err (.value a)
 
+/-- minimum of the head strides and the backbone `output_stride` (`Model.__init__`) -/
+def Cfg.minOs (c : Cfg) : Nat := minList (c.heads.map (·.os)) c.bos
+
+/-- `Model.__init__`, one head: `in_channels` of its 1×1 convolution.  `strides.index(...)` is
+    only evaluated when the head does not sit at the minimum output stride. -/
+def headInFor (r : Rate) (xIn n : Nat) (strides : List Nat) (minOs os : Nat) : Res Nat :=
+  if os ≠ minOs then
+    (findIdx strides minOs).bind fun i => (findIdx strides os).bind fun j =>
+      .ok (headIn r xIn n (some (i - j)))
+  else .ok (headIn r xIn n none)
+
 /-- `Model.__init__`: the `in_channels` of every head layer. -/
 def initHeads (c : Cfg) (b : Built) : List Head → Res (List Nat)
   | [] => .ok []
   | h :: hs =>
-    let strides := labels b.dec
-    let minOs := minList (c.heads.map (·.os)) c.bos
-    let n := b.dec.length
-    let this : Res Nat :=
-      if h.os ≠ minOs then
-        (findIdx strides minOs).bind fun i => (findIdx strides h.os).bind fun j =>
-          .ok (headIn c.rate b.xIn n (some (i - j)))
-      else .ok (headIn c.rate b.xIn n none)
-    this.bind fun x => (initHeads c b hs).bind fun xs => .ok (x :: xs)
+    (headInFor c.rate b.xIn b.dec.length (labels b.dec) c.minOs h.os).bind fun x =>
+      (initHeads c b hs).bind fun xs => .ok (x :: xs)
 
 structure Constructed where
   built : Built
@@ -334,12 +350,16 @@ def spatStages (b : Built) (fresh : Bool) (n : Nat) : Res (List Nat) :=
   (optRes (encRun (fun x op => op.spat fresh x) b.enc n [])).bind fun (x, feats) =>
     decSpat b.dec x feats
 
-/-- `Model.forward` head loop: look the head's stride up, apply the 1×1 head convolution. -/
+/-- `Model.forward`, one head: look the head's stride up, apply the 1×1 head convolution. -/
+def headOutFor (strides chans hs ws : List Nat) (h : Head) (hin : Nat) : Res (Nat × Nat × Nat) :=
+  (findIdx strides h.os).bind fun i =>
+    if chans.getD i 0 != hin then .err .runtime else .ok (h.ch, hs.getD i 0, ws.getD i 0)
+
+/-- `Model.forward` head loop (`zip(self.heads, self.head_layers)`). -/
 def headOuts (strides chans hs ws : List Nat) : List Head → List Nat → Res (List (Nat × Nat × Nat))
   | h :: hds, hin :: hins =>
-    (findIdx strides h.os).bind fun i =>
-      if chans.getD i 0 != hin then .err .runtime
-      else (headOuts strides chans hs ws hds hins).bind fun l => .ok ((h.ch, hs.getD i 0, ws.getD i 0) :: l)
+    (headOutFor strides chans hs ws h hin).bind fun o =>
+      (headOuts strides chans hs ws hds hins).bind fun l => .ok (o :: l)
   | _, _ => .ok []
 
 structure Forward where
